@@ -92,6 +92,31 @@ odmimetypes = {
  u'application/vnd.oasis.opendocument.text-web':              u'.oth',
 }
 
+# Attributes whose value names a style: every attribute the ODF 1.2 schema
+# types as styleNameRef or styleNameRefs (a space separated list), and
+# style:list-style-name
+_STYLE_REFERENCE_ATTRIBUTES = frozenset((
+    (CHARTNS, u'style-name'),
+    (DBNS, u'default-cell-style-name'), (DBNS, u'default-row-style-name'), (DBNS, u'style-name'),
+    (DRAWNS, u'class-names'), (DRAWNS, u'fill-gradient-name'), (DRAWNS, u'fill-hatch-name'),
+    (DRAWNS, u'fill-image-name'), (DRAWNS, u'marker-end'), (DRAWNS, u'marker-start'),
+    (DRAWNS, u'master-page-name'), (DRAWNS, u'opacity-name'), (DRAWNS, u'stroke-dash'),
+    (DRAWNS, u'stroke-dash-names'), (DRAWNS, u'style-name'), (DRAWNS, u'text-style-name'),
+    (FORMNS, u'text-style-name'),
+    (PRESENTATIONNS, u'class-names'), (PRESENTATIONNS, u'presentation-page-layout-name'),
+    (PRESENTATIONNS, u'style-name'),
+    (STYLENS, u'apply-style-name'), (STYLENS, u'data-style-name'), (STYLENS, u'leader-text-style'),
+    (STYLENS, u'list-style-name'), (STYLENS, u'master-page-name'), (STYLENS, u'next-style-name'),
+    (STYLENS, u'page-layout-name'), (STYLENS, u'parent-style-name'),
+    (STYLENS, u'percentage-data-style-name'), (STYLENS, u'register-truth-ref-style-name'),
+    (STYLENS, u'style-name'), (STYLENS, u'text-line-through-text-style'),
+    (TABLENS, u'default-cell-style-name'), (TABLENS, u'paragraph-style-name'), (TABLENS, u'style-name'),
+    (TEXTNS, u'citation-body-style-name'), (TEXTNS, u'citation-style-name'), (TEXTNS, u'class-names'),
+    (TEXTNS, u'cond-style-name'), (TEXTNS, u'default-style-name'), (TEXTNS, u'main-entry-style-name'),
+    (TEXTNS, u'master-page-name'), (TEXTNS, u'style-name'), (TEXTNS, u'style-override'),
+    (TEXTNS, u'visited-style-name'),
+))
+
 class OpaqueObject:
     """
     just a record to bear a filename, a mediatype and a bytes content
@@ -358,6 +383,21 @@ class OpenDocument:
         assert(type(result)==type(u""))
         return result
 
+    def _scanoneelement(self, e, stylenamelist):
+        """
+        Adds the style names one element refers to to the style list
+        if not already there.
+        @return the list of style names as unicode strings
+        """
+        for qname, value in e.attributes.items():
+            if qname in _STYLE_REFERENCE_ATTRIBUTES and value:
+                # due to the polymorphism of the attribute values,
+                # a unicode type is enforced; some attributes hold a list
+                for stylename in unicode(value).split():
+                    if stylename not in stylenamelist:
+                        stylenamelist.append(stylename)
+        return stylenamelist
+
     def _parseoneelement(self, top, stylenamelist):
         """
         Finds references to style objects in master-styles
@@ -367,24 +407,7 @@ class OpenDocument:
         """
         for e in top.childNodes:
             if e.nodeType == element.Node.ELEMENT_NODE:
-                for styleref in (
-                        (CHARTNS,u'style-name'),
-                        (DRAWNS,u'style-name'),
-                        (DRAWNS,u'text-style-name'),
-                        (PRESENTATIONNS,u'style-name'),
-                        (STYLENS,u'data-style-name'),
-                        (STYLENS,u'list-style-name'),
-                        (STYLENS,u'page-layout-name'),
-                        (STYLENS,u'style-name'),
-                        (TABLENS,u'default-cell-style-name'),
-                        (TABLENS,u'style-name'),
-                        (TEXTNS,u'style-name') ):
-                    if e.getAttrNS(styleref[0],styleref[1]):
-                        stylename = e.getAttrNS(styleref[0],styleref[1])
-                        if stylename not in stylenamelist:
-                            # due to the polymorphism of e.getAttrNS(),
-                            # a unicode type is enforced for elements
-                            stylenamelist.append(unicode(stylename))
+                stylenamelist = self._scanoneelement(e, stylenamelist)
                 stylenamelist = self._parseoneelement(e, stylenamelist)
         return stylenamelist
 
@@ -398,10 +421,20 @@ class OpenDocument:
         stylenamelist = []
         for top in segments:
             stylenamelist = self._parseoneelement(top, stylenamelist)
-        stylelist = []
-        for e in self.automaticstyles.childNodes:
-            if isinstance(e, element.Element) and e.getAttrNS(STYLENS,u'name') in stylenamelist:
-                stylelist.append(e)
+        # Automatic styles refer to each other (a paragraph style to its list
+        # style, a cell style to its data style, ...): follow those references too
+        selected = set()
+        found = True
+        while found:
+            found = False
+            for e in self.automaticstyles.childNodes:
+                if isinstance(e, element.Element) and id(e) not in selected \
+                        and e.getAttrNS(STYLENS,u'name') in stylenamelist:
+                    selected.add(id(e))
+                    found = True
+                    stylenamelist = self._scanoneelement(e, stylenamelist)
+                    stylenamelist = self._parseoneelement(e, stylenamelist)
+        stylelist = [ e for e in self.automaticstyles.childNodes if id(e) in selected ]
 
         # check the type of the returned data
         ok=True
